@@ -28,10 +28,12 @@ static size_t cbc_outlen(size_t inlen) { return 16 + inlen - inlen % 16 + 48; }
 #define SENT ((size_t)0xA5A5A5A5A5A5A5A5ULL)
 
 /* shared: print a dec13 style error with the reported outlen if the callee touched it */
-/* on failure the value left in *outlen matters only if it exceeds the input (it is kept in conn->datalen) */
+/* on failure: print the value the callee left in *outlen, if it touched it (tls13_do_recv passes
+ * &conn->datalen, so the value survives the error return) */
 static size_t cur_inlen;
 static void put_err_outlen(size_t outlen) {
-	if (outlen == SENT || outlen <= cur_inlen) printf("ERR"); else printf("ERR outlen=%zx", outlen);
+	(void)cur_inlen;
+	if (outlen == SENT) printf("ERR"); else printf("ERR outlen=%zx", outlen);
 }
 
 /* ---- neighbourhood helpers (property oracle "must reject") ---- */
